@@ -425,9 +425,8 @@ def rule_attr_fields(chk, fb, rid, only=None, floor=250):
 # ---------------------------------------------------------------------------------------------------------------------
 # parsed objects are stored as parsed
 PARSED_THEN_CHANGED_OK = {
-    # (function, type of the parsed object, mutating call): reason
-    ("reader::xlsx::styles::read", "Stylesheet", "make_style"): "builds the derived style list from the tables just read; no attribute is rewritten",
-    ("structs::columns::Columns::set_attributes", "Column", "set_col_num"): "a <col min= max=> range is expanded into one Column per index: the number is the loop counter by design",
+    # (type of the parsed object, call that is handed the object and a value): reason
+    ("Column", "set_col_num"): "a <col min= max=> range is expanded into one Column per index: the number is the loop counter by design",
 }
 
 
@@ -440,7 +439,7 @@ def rule_parsed_as_stored(chk, fb, rid, only_types=None, floor=300):
 
     r = chk.rule(
         rid,
-        "parsed objects are stored as parsed: in every function that creates an object and fills it with set_attributes*, no later call in that function takes the object by &mut (no setter, no field assignment) - the listed derived-data exceptions aside",
+        "parsed objects are stored as parsed: in every function that creates an object and fills it with set_attributes*, no later call in that function is handed the object by &mut together with a value (no setter), and no field of it is assigned - the listed exception aside",
         floor=floor,
     )
     n = 0
@@ -466,10 +465,12 @@ def rule_parsed_as_stored(chk, fb, rid, only_types=None, floor=300):
             for ci, ct in fl.calls():
                 if ci == bi or ci not in after or ct.get("fn") == t["fn"]:
                     continue
+                if len(ct["args"]) < 2:
+                    continue  # nothing is handed in that could be stored: a method that only rearranges what was parsed (e.g. builds derived tables)
                 for a in ct["args"]:
                     if "p" in a and not a["p"].get("pr") and fl.local_ty(a["p"]["l"]).startswith("&mut ") and fl.deref_root(a["p"]["l"]) == root:
                         nm = ct.get("fn", "?").split("::")[-1]
-                        if (d, ty, nm) not in PARSED_THEN_CHANGED_OK:
+                        if (ty, nm) not in PARSED_THEN_CHANGED_OK:
                             changed.append("%s (line %s)" % (nm, ct.get("ln")))
             for x in after | {bi}:
                 for st in b["blocks"][x]["s"]:
